@@ -211,8 +211,14 @@ def systematic_resample(
     if random_state is not None:
         np.random.seed(random_state)
 
-    if abs(np.sum(weights) - 1.0) > SQRTEPS:
-        weights = np.array(weights) / np.sum(weights)
+    # The comb below places ``size`` teeth on [0, 1); it matches the cumulative
+    # weights cell by cell only if the last cell ends at exactly 1. With a sum
+    # slightly below 1 a tooth can fall beyond the last cumulative weight and is
+    # then absorbed by the last index, which gets one copy too many. Always
+    # normalise, whatever the size of the deviation.
+    total = np.sum(weights)
+    if total != 1.0:
+        weights = np.array(weights) / total
 
     positions = (np.random.random() + np.arange(size)) / size
 
